@@ -77,10 +77,6 @@ func (i *interpreter) global(g *ssa.Global) *value {
 	return p
 }
 
-func (i *interpreter) goStmt(fr *frame, instr *ssa.Go, fn value, args []value) {
-	panic(pathAbort{"unsupported", "go statement in " + fr.fn.String()})
-}
-
 // vxReach(root any, ifaceName string) []any: all values of a type implementing the
 // named interface of root's package that are reachable from root through fields.
 func vxReach(fr *frame, a []value) value {
